@@ -98,6 +98,8 @@ def _structure(
     # The set of all known dependencies to a node
     node_deps: OrderedDict[PyHash, Set[PyHash]] = OrderedDict()
     deps: OrderedDict[Tuple[PyHash, PyHash], Edge] = OrderedDict()
+    # The kept nodes whose own call has run-time arguments: their signature depends on what is called before them
+    context_dependent: Set[PyHash] = set()
 
     # Returns the list of head nodes:
     # All the nodes that can be evaluated independently inside a function.
@@ -148,6 +150,10 @@ def _structure(
             else:
                 for n1 in start_nodes:
                     for n2 in l1:
+                        if n2.node_hash not in context_dependent:
+                            # A keep without run-time arguments reached through a call that has some: its
+                            # signature does not depend on the call order.
+                            continue
                         k1 = n1.node_hash
                         k2 = n2.node_hash
                         if k1 not in node_deps:
@@ -175,6 +181,8 @@ def _structure(
             # We are returning a path -> create a node
             res_node = Node(fis_.store_path, sig)
             nodes[sig] = res_node
+            if any(a_sig is None for a_sig in fis_.arg_input.named_args.values()):
+                context_dependent.add(sig)
             all_refs[fis_.store_path] = sig
             sub_set.update([n.node_hash for n in sub_nodes])
             node_deps[res_node.node_hash] = sub_set
